@@ -292,7 +292,7 @@ TRANSFORMS = {
 def f_transform(a):
     """Apply a pipeline of transformations; one event for the whole pipeline (in -> out) carrying
     the postconditions of the last step."""
-    g = build(a["G"], a["sr"], a.get("names", "str"))
+    g = build(a["G"], a["sr"], a.get("names", "str"), a.get("pre"), a.get("late", 0), a.get("early"))
     before = cfg_digest(g)
     cur = g
     posts = []
